@@ -27,13 +27,32 @@
 //!    comments, CRLF, possibly one mutation making it malformed; sophia's parser and the Coq
 //!    reference reader must agree (same quads, or both reject): validates the reference reader.
 //!    All the ways of reading must agree with each other on these texts too.
+//!  STRENGTHENED (next to the random streams):
+//!  * bulk (directed, one case in 81): datasets of 30..700 statements, texts of 3..70 KiB (sizes in
+//!    turn, on both sides of 4 / 8 / 16 / 32 / 64 KiB), one in four with a single lexical form half as
+//!    long as the text; checked like any dataset case (oracle + Coq), one in three also repeated up to
+//!    0.3..1.1 MB (oracle only).
+//!  * io::Write probes (every dataset / generalized / lax case: 3, bulk: 10 per format): a target
+//!    described by data -- bytes taken per call (fixed sizes 1..65536, half, all but one, in turn),
+//!    interrupted calls, a total budget after which it fails or answers Ok(0) -- handed over by value,
+//!    by &mut, boxed, behind BufWriter (3 capacities) or LineWriter (+ flush).  ORACLE: the target has
+//!    received exactly the first min(budget, len) bytes of THE text, already when serialize_* returns
+//!    for unbuffered wrappers; success iff everything fitted; failures are sink errors.  Coq:
+//!    `sinks_ok` (model of write_all over such targets, coq/C03/Adapters.v).
+//!  * Source adapters (every way of reading, every parser, dataset and reader streams): map_* /
+//!    filter_map_* + into_iter (size_hint checked), filter_* (keep all; even / odd halves merged),
+//!    the adapter as a Source, the iterator as a Source, to_triples / to_quads, for_some_* loops,
+//!    indexed stores of sophia_inmem (as sets).  The behaviour of the adapters is also reduced to
+//!    numbers (trace of the calls of for_some_*, numbers of the statements that come out of the
+//!    iterators) and compared with the Coq model of api/src/source/{filter,filter_map,map}.rs
+//!    (`trace_ok`, `iter_trace_ok`, `each_trace_ok`).
 use rio_api::model as rm;
 use rio_api::model::{GeneralizedQuad, GeneralizedTerm, Variable};
 use sophia_api::parser::{QuadParser, TripleParser};
 use sophia_api::prelude::*;
 use sophia_api::quad::Spog;
 use sophia_api::serializer::{QuadSerializer, Stringifier, TripleSerializer};
-use sophia_api::source::{QuadSource, StreamError, TripleSource};
+use sophia_api::source::{QuadSource, Source, StreamError, TripleSource};
 use sophia_api::term::{BnodeId, LanguageTag, Term, TermKind};
 use sophia_rio::model::Trusted;
 use sophia_turtle::parser::{gnq, gnq::GNQuadsParser, nq, nq::NQuadsParser, nt, nt::NTriplesParser};
@@ -82,14 +101,23 @@ fn same_q(a: &Q, b: &Q) -> bool {
     same(&a.0, &b.0) && same(&a.1, &b.1) && same(&a.2, &b.2) && match (&a.3, &b.3) { (None, None) => true, (Some(x), Some(y)) => same(x, y), _ => false }
 }
 fn same_qs(a: &[Q], b: &[Q]) -> bool { a.len() == b.len() && a.iter().zip(b).all(|(x, y)| same_q(x, y)) }
+/// Coq's front end overflows its stack on list literals of a few ten thousand elements: long lists
+/// are written as the concatenation of pieces of CHUNK elements
+const CHUNK: usize = 2000;
+fn chunked(items: Vec<String>) -> String {
+    if items.len() <= 2 * CHUNK { return coq_list(items); }
+    format!("(concat {})", coq_list(items.chunks(CHUNK).map(|c| coq_list(c.iter().cloned()))))
+}
+fn cstr(s: &str) -> String { chunked(s.chars().map(|c| (c as u32).to_string()).collect()) }
+fn cbytes(b: &[u8]) -> String { chunked(b.iter().map(|c| c.to_string()).collect()) }
 fn c_term(t: &T) -> String {
     match t {
-        T::Iri(s) => format!("(Iri {})", coq_str(s)),
-        T::B(s) => format!("(Bnode {})", coq_str(s)),
-        T::Lit(l, d) => format!("(LitDt {} {})", coq_str(l), coq_str(d)),
-        T::Lang(l, g) => format!("(LitLang {} {})", coq_str(l), coq_str(g)),
+        T::Iri(s) => format!("(Iri {})", cstr(s)),
+        T::B(s) => format!("(Bnode {})", cstr(s)),
+        T::Lit(l, d) => format!("(LitDt {} {})", cstr(l), cstr(d)),
+        T::Lang(l, g) => format!("(LitLang {} {})", cstr(l), cstr(g)),
         T::Tr(b) => format!("(Triple {} {} {})", c_term(&b[0]), c_term(&b[1]), c_term(&b[2])),
-        T::Var(s) => format!("(Var {})", coq_str(s)),
+        T::Var(s) => format!("(Var {})", cstr(s)),
     }
 }
 /// expected quads are printed from the plain data; `coq_term` of the harness lib prints the sophia
@@ -185,11 +213,164 @@ fn view<X: Term>(x: X, errs: &mut Vec<String>) -> T {
 // ---------- every public way of reading ----------
 type Rd = Result<Vec<Q>, String>;
 fn finish(out: Vec<Q>, errs: Vec<String>) -> Rd { if errs.is_empty() { Ok(out) } else { Err(format!("INCONSISTENT TERM VIEW: {}", errs.join("; "))) } }
-const READ_MODES: &[&str] = &["for_each+s/p/o/g", "try_for_each+to_spog", "step-by-step+to_s/to_p/to_o/to_g", "collect", "add_to", "failing-sink"];
+const READ_MODES: &[&str] = &["for_each+s/p/o/g", "try_for_each+to_spog", "step-by-step+to_s/to_p/to_o/to_g", "collect", "add_to", "failing-sink",
+    "map_*+into_iter", "filter_map_*(keep all)+into_iter", "filter_*(keep all)+for_each", "filter_*(even | odd numbers)+for_each, merged", "map_*+for_each_item(the adapter as a Source)",
+    "map_*+into_iter+try_for_each_item(the iterator as a Source)", "filter_map_*(even | odd numbers)+into_iter, merged", "to_triples+graph names apart | to_quads", "for_some_*(loop)",
+    "filter_*(keep all)+map_*+into_iter", "collect into sophia_inmem (as a set)"];
+const M_FAILING_SINK: usize = 5;
+fn qview<X: Quad>(q: &X, e: &mut Vec<String>) -> Q { (view(q.s(), e), view(q.p(), e), view(q.o(), e), q.g().map(|g| view(g, e))) }
+fn tview<X: Triple>(t: &X, e: &mut Vec<String>) -> Q { (view(t.s(), e), view(t.p(), e), view(t.o(), e), None) }
+/// even-numbered and odd-numbered items back into one list
+fn interleave(mut halves: Vec<Vec<Q>>) -> Rd {
+    let b = halves.pop().unwrap(); let a = halves.pop().unwrap();
+    if !(a.len() == b.len() || a.len() == b.len() + 1) { return Err(format!("keeping the even-numbered statements gives {} of them, keeping the odd-numbered ones gives {}: {a:?} / {b:?}", a.len(), b.len())); }
+    let mut out = vec![]; let (mut ia, mut ib) = (a.into_iter(), b.into_iter());
+    loop { match ia.next() { Some(x) => out.push(x), None => break } match ib.next() { Some(x) => out.push(x), None => break } }
+    Ok(out)
+}
+/// drain an iterator of results, checking its size_hint against what it really yields
+fn drain<X, E: std::fmt::Display>(mut it: impl Iterator<Item = Result<X, E>>, limit: usize) -> Result<Vec<X>, String> {
+    let (lo, hi) = it.size_hint();
+    let mut v = vec![];
+    while let Some(r) = it.next() { v.push(r.map_err(|e| e.to_string())?); if v.len() > limit { return Err(format!("the iterator yields more than {limit} items")); } }
+    if lo > v.len() || hi.is_some_and(|h| h < v.len()) { return Err(format!("size_hint() was ({lo}, {hi:?}) and the iterator yielded {} items", v.len())); }
+    Ok(v)
+}
+const ITER_LIMIT: usize = 1_000_000;
+/// the ways of reading that go through the adapters of `Source` (filter / filter_map / map) and
+/// the iterators built on them; the same code for quad and triple sources
+macro_rules! adapter_modes {
+    ($fname:ident, $bound:ident, $view:ident, $map:ident, $filter:ident, $filter_map:ident, $for_each:ident, $for_some:ident) => {
+        fn $fname<S: $bound, F: Fn() -> S>(mk: &F, mode: usize, _k: usize) -> Rd {
+            let mut out: Vec<Q> = vec![];
+            let mut errs: Vec<String> = vec![];
+            match mode {
+                6 => for (b, e) in drain(mk().$map(|q| { let mut e = vec![]; let b = $view(&q, &mut e); (b, e) }).into_iter(), ITER_LIMIT)? { out.push(b); errs.extend(e); },
+                7 => for (b, e) in drain(mk().$filter_map(|q| { let mut e = vec![]; let b = $view(&q, &mut e); Some((b, e)) }).into_iter(), ITER_LIMIT)? { out.push(b); errs.extend(e); },
+                8 => mk().$filter(|_q| true).$for_each(|q| out.push($view(&q, &mut errs))).map_err(|e| e.to_string())?,
+                9 => {
+                    let mut halves = vec![];
+                    for par in 0..2usize { let mut i = 0usize; let mut h = vec![]; mk().$filter(move |_q| { let keep = i % 2 == par; i += 1; keep }).$for_each(|q| h.push($view(&q, &mut errs))).map_err(|e| e.to_string())?; halves.push(h); }
+                    out = interleave(halves)?;
+                }
+                10 => mk().$map(|q| { let mut e = vec![]; let b = $view(&q, &mut e); (b, e) }).for_each_item(|(b, e)| { out.push(b); errs.extend(e); }).map_err(|e| e.to_string())?,
+                11 => {
+                    let mut it = mk().$map(|q| { let mut e = vec![]; let b = $view(&q, &mut e); (b, e) }).into_iter();
+                    it.try_for_each_item(|(b, e)| -> Result<(), MyErr> { out.push(b); errs.extend(e); Ok(()) }).map_err(|e| e.to_string())?;
+                    if it.next().is_some() { return Err("the iterator consumed as a Source to its end still yields an item".into()); }
+                }
+                12 => {
+                    let mut halves = vec![];
+                    for par in 0..2usize {
+                        let mut i = 0usize; let mut h = vec![];
+                        for (b, e) in drain(mk().$filter_map(move |q| { let keep = i % 2 == par; i += 1; if keep { let mut e = vec![]; let b = $view(&q, &mut e); Some((b, e)) } else { None } }).into_iter(), ITER_LIMIT)? { h.push(b); errs.extend(e); }
+                        halves.push(h);
+                    }
+                    out = interleave(halves)?;
+                }
+                14 => { let mut src = mk(); let mut rounds = 0usize; loop { let more = src.$for_some(|q| out.push($view(&q, &mut errs))).map_err(|e| e.to_string())?; if !more { break; } rounds += 1; if rounds > ITER_LIMIT { return Err("the source never answers Ok(false)".into()); } } }
+                15 => for (b, e) in drain(mk().$filter(|_q| true).$map(|q| { let mut e = vec![]; let b = $view(&q, &mut e); (b, e) }).into_iter(), ITER_LIMIT)? { out.push(b); errs.extend(e); },
+                _ => unreachable!(),
+            }
+            finish(out, errs)
+        }
+    };
+}
+adapter_modes!(adapter_quads, QuadSource, qview, map_quads, filter_quads, filter_map_quads, for_each_quad, for_some_quad);
+adapter_modes!(adapter_triples, TripleSource, tview, map_triples, filter_triples, filter_map_triples, for_each_triple, for_some_triple);
+/// What the adapters do, reduced to NUMBERS (for the Coq model of api/src/source/*.rs, and for the
+/// oracle): the trace of the source (items delivered and answer of every call of for_some_*, three
+/// more calls after the first Ok(false)), and the numbers of the statements that come out of
+/// map_* + into_iter, filter_map_*(keep m) + into_iter and filter_*(keep m) + for_each_*.
+/// keep m: everything if m == 0, else the statements whose number is not a multiple of m.
+struct AdapterObs { trace: Vec<(usize, u8)>, map_iter: (Vec<usize>, bool), fm_iter: (Vec<usize>, bool), filter_each: (Vec<usize>, bool), m: usize }
+const A_MORE: u8 = 0; const A_DONE: u8 = 1; const A_BROKE: u8 = 2;
+fn keep_m(m: usize, i: usize) -> bool { m == 0 || i % m != 0 }
+fn drain_numbers<E>(it: impl Iterator<Item = Result<usize, E>>) -> (Vec<usize>, bool) {
+    let mut v = vec![];
+    for r in it { match r { Ok(i) => v.push(i), Err(_) => return (v, false) } if v.len() > ITER_LIMIT { break; } }
+    (v, true)
+}
+macro_rules! adapter_obs {
+    ($fname:ident, $bound:ident, $map:ident, $filter:ident, $filter_map:ident, $for_each:ident, $for_some:ident) => {
+        fn $fname<S: $bound, F: Fn() -> S>(mk: &F, m: usize) -> AdapterObs {
+            let mut trace = vec![];
+            let mut src = mk(); let mut after = 0;
+            loop {
+                let mut n = 0usize;
+                match src.$for_some(|_q| n += 1) {
+                    Ok(true) => trace.push((n, A_MORE)),
+                    Ok(false) => { trace.push((n, A_DONE)); after += 1; if after == 4 { break; } }
+                    Err(_) => { trace.push((n, A_BROKE)); break; }
+                }
+                if trace.len() > ITER_LIMIT { break; }
+            }
+            let mut i = 0usize;
+            let map_iter = drain_numbers(mk().$map(move |_q| { i += 1; i - 1 }).into_iter());
+            let mut i = 0usize;
+            let fm_iter = drain_numbers(mk().$filter_map(move |_q| { i += 1; if keep_m(m, i - 1) { Some(i - 1) } else { None } }).into_iter());
+            let ctr = std::cell::Cell::new(0usize);
+            let mut got = vec![];
+            let ok = mk().$filter(|_q| { ctr.set(ctr.get() + 1); keep_m(m, ctr.get() - 1) }).$for_each(|_q| got.push(ctr.get() - 1)).is_ok();
+            AdapterObs { trace, map_iter, fm_iter, filter_each: (got, ok), m }
+        }
+    };
+}
+adapter_obs!(obs_quads, QuadSource, map_quads, filter_quads, filter_map_quads, for_each_quad, for_some_quad);
+adapter_obs!(obs_triples, TripleSource, map_triples, filter_triples, filter_map_triples, for_each_triple, for_some_triple);
+fn count_quads<S: QuadSource>(mut s: S) -> (usize, bool) { let mut n = 0; let ok = s.for_each_quad(|_q| n += 1).is_ok(); (n, ok) }
+fn count_triples<S: TripleSource>(mut s: S) -> (usize, bool) { let mut n = 0; let ok = s.for_each_triple(|_q| n += 1).is_ok(); (n, ok) }
+impl AdapterObs {
+    /// the ORACLE on the numbers: `n` statements read plainly (`ok`: without error) => the iterators
+    /// hand out 0..n (resp. the kept ones), in order, and end the same way
+    fn oracle(&self, n: usize, ok: bool) -> Vec<String> {
+        let mut f = vec![];
+        let all: Vec<usize> = (0..n).collect();
+        let kept: Vec<usize> = (0..n).filter(|i| keep_m(self.m, *i)).collect();
+        if self.map_iter != (all.clone(), ok) { f.push(format!("map_* + into_iter yields the statements numbered {:?} (ends without error: {}) of the {n} statements (read without error: {ok})", self.map_iter.0, self.map_iter.1)); }
+        if self.fm_iter != (kept.clone(), ok) { f.push(format!("filter_map_*(all but the multiples of {}) + into_iter yields the statements numbered {:?} (ends without error: {}) of the {n} statements (read without error: {ok})", self.m, self.fm_iter.0, self.fm_iter.1)); }
+        if self.filter_each != (kept, ok) { f.push(format!("filter_*(all but the multiples of {}) + for_each_* delivers the statements numbered {:?} (ends without error: {}) of the {n} statements (read without error: {ok})", self.m, self.filter_each.0, self.filter_each.1)); }
+        let delivered: usize = { let mut t = 0; for (k, a) in &self.trace { t += k; if *a != A_MORE { break; } } t };
+        if delivered != n { f.push(format!("calling for_some_* until it answers Ok(false) or fails delivers {delivered} statements, for_each_* {n}; trace {:?}", self.trace)); }
+        if let Some(p) = self.trace.iter().position(|(_, a)| *a == A_DONE) { if self.trace[p + 1..].iter().any(|x| *x != (0, A_DONE)) { f.push(format!("the source goes on after having answered Ok(false): trace {:?}", self.trace)); } }
+        f
+    }
+    fn coq(&self, n: usize) -> String {
+        let tr = coq_list(self.trace.iter().map(|(k, a)| format!("({k}, {})", ["More", "Done", "Broke"][*a as usize])));
+        let nums = |v: &Vec<usize>| coq_list(v.iter().map(|i| i.to_string()));
+        format!("(let tr := {tr} in trace_ok tr {n} && iter_trace_ok 0 tr {} {} && iter_trace_ok {} tr {} {} && each_trace_ok {} tr {} {})",
+            nums(&self.map_iter.0), coq_bool(self.map_iter.1), self.m, nums(&self.fm_iter.0), coq_bool(self.fm_iter.1), self.m, nums(&self.filter_each.0), coq_bool(self.filter_each.1))
+    }
+}
+/// lower-cased-tag rendering of a statement, for set comparisons (indexed stores fold tag case)
+fn key_q(q: &Q) -> String { fn lc(t: &T) -> T { match t { T::Lang(l, g) => T::Lang(l.clone(), g.to_ascii_lowercase()), T::Tr(b) => T::Tr(Box::new([lc(&b[0]), lc(&b[1]), lc(&b[2])])), x => x.clone() } } format!("{:?}", (lc(&q.0), lc(&q.1), lc(&q.2), q.3.as_ref().map(lc))) }
 /// consume a quad source in the way number `mode`; `k` varies the details
-fn consume_quads<S: QuadSource>(mut src: S, mode: usize, k: usize) -> Rd {
+fn consume_quads<S: QuadSource, F: Fn() -> S>(mk: &F, mode: usize, k: usize) -> Rd {
     let mut out: Vec<Q> = vec![];
     let mut errs: Vec<String> = vec![];
+    if matches!(mode, 6..=12 | 14 | 15) { return adapter_quads(mk, mode, k); }
+    if mode == 13 {
+        // the triples through to_triples(), the graph names in a second pass
+        let mut spo = vec![]; mk().to_triples().for_each_triple(|t| spo.push(tview(&t, &mut errs))).map_err(|e| e.to_string())?;
+        let mut gs = vec![]; mk().for_each_quad(|q| gs.push(q.g().map(|g| view(g, &mut errs)))).map_err(|e| e.to_string())?;
+        if spo.len() != gs.len() { return Err(format!("to_triples() delivers {} triples, the source itself {} quads", spo.len(), gs.len())); }
+        return finish(spo.into_iter().zip(gs).map(|(t, g)| (t.0, t.1, t.2, g)).collect(), errs);
+    }
+    if mode == 16 {
+        // an indexed store is a set: the statements it holds are those of the plain reading, as a set
+        use std::collections::BTreeSet;
+        let plain = consume_quads(mk, 0, k)?;
+        let d: sophia_inmem::dataset::LightDataset = mk().collect_quads().map_err(|e| e.to_string())?;
+        let mut got = BTreeSet::new();
+        for q in d.quads() { let q = q.map_err(|e| e.to_string())?; got.insert(key_q(&qview(&q, &mut errs))); }
+        let want: BTreeSet<String> = plain.iter().map(key_q).collect();
+        if got != want { return Err(format!("collected into a LightDataset: {got:?}; read plainly: {want:?}")); }
+        let mut f = sophia_inmem::dataset::FastDataset::new();
+        let n = mk().add_to_dataset(&mut f).map_err(|e| e.to_string())?;
+        if n != want.len() || f.quads().count() != want.len() { return Err(format!("add_to_dataset(FastDataset) returned {n}, the store holds {} quads, the text has {} distinct ones", f.quads().count(), want.len())); }
+        return finish(plain, errs);
+    }
+    let mut src = mk();
     match mode {
         0 => src.for_each_quad(|q| { let e = &mut errs; out.push((view(q.s(), e), view(q.p(), e), view(q.o(), e), q.g().map(|g| view(g, e)))) }).map_err(|e| e.to_string())?,
         1 => src.try_for_each_quad(|q| -> Result<(), MyErr> { let e = &mut errs; let ([s, p, o], g) = q.to_spog(); out.push((view(s, e), view(p, e), view(o, e), g.map(|g| view(g, e)))); Ok(()) }).map_err(|e| e.to_string())?,
@@ -232,9 +413,25 @@ fn consume_quads<S: QuadSource>(mut src: S, mode: usize, k: usize) -> Rd {
     }
     finish(out, errs)
 }
-fn consume_triples<S: TripleSource>(mut src: S, mode: usize, k: usize) -> Rd {
+fn consume_triples<S: TripleSource, F: Fn() -> S>(mk: &F, mode: usize, k: usize) -> Rd {
     let mut out: Vec<Q> = vec![];
     let mut errs: Vec<String> = vec![];
+    if matches!(mode, 6..=12 | 14 | 15) { return adapter_triples(mk, mode, k); }
+    if mode == 13 { return consume_quads(&|| mk().to_quads(), (k + 1) % 2, k); }
+    if mode == 16 {
+        use std::collections::BTreeSet;
+        let plain = consume_triples(mk, 0, k)?;
+        let d: sophia_inmem::graph::LightGraph = mk().collect_triples().map_err(|e| e.to_string())?;
+        let mut got = BTreeSet::new();
+        for t in d.triples() { let t = t.map_err(|e| e.to_string())?; got.insert(key_q(&tview(&t, &mut errs))); }
+        let want: BTreeSet<String> = plain.iter().map(key_q).collect();
+        if got != want { return Err(format!("collected into a LightGraph: {got:?}; read plainly: {want:?}")); }
+        let mut f = sophia_inmem::graph::FastGraph::new();
+        let n = mk().add_to_graph(&mut f).map_err(|e| e.to_string())?;
+        if n != want.len() || f.triples().count() != want.len() { return Err(format!("add_to_graph(FastGraph) returned {n}, the store holds {} triples, the text has {} distinct ones", f.triples().count(), want.len())); }
+        return finish(plain, errs);
+    }
+    let mut src = mk();
     match mode {
         0 => src.for_each_triple(|q| { let e = &mut errs; out.push((view(q.s(), e), view(q.p(), e), view(q.o(), e), None)) }).map_err(|e| e.to_string())?,
         1 => src.try_for_each_triple(|q| -> Result<(), MyErr> { let e = &mut errs; let [s, p, o] = q.to_spo(); out.push((view(s, e), view(p, e), view(o, e), None)); Ok(()) }).map_err(|e| e.to_string())?,
@@ -284,14 +481,14 @@ macro_rules! read_paths {
                 let mut entry = (mode + k) % READ_ENTRIES.len();
                 if txt.is_none() && (entry == 1 || entry == 3) { entry = 0; }
                 let res = match entry {
-                    1 => $consume($module::parse_str(txt.unwrap()), mode, k % 4),
-                    2 => $consume($ptrait::parse(&$parser::default(), io::BufReader::with_capacity(1 + k % 7, bytes)), mode, k % 4),
-                    3 => $consume($parser {}.parse_str(txt.unwrap()), mode, k % 4),
-                    4 => $consume($parser::default().parse(io::Cursor::new(bytes.to_vec())), mode, k % 4),
-                    _ => $consume($module::parse_bufread(bytes), mode, k % 4),
+                    1 => $consume(&|| $module::parse_str(txt.unwrap()), mode, k % 4),
+                    2 => $consume(&|| $ptrait::parse(&$parser::default(), io::BufReader::with_capacity(1 + k % 7, bytes)), mode, k % 4),
+                    3 => $consume(&|| $parser {}.parse_str(txt.unwrap()), mode, k % 4),
+                    4 => $consume(&|| $parser::default().parse(io::Cursor::new(bytes.to_vec())), mode, k % 4),
+                    _ => $consume(&|| $module::parse_bufread(bytes), mode, k % 4),
                 };
                 // the failing sink stops early: what it saw must be the first k+1 quads of the document
-                let res = if mode != 5 { res } else { match (res, $consume($module::parse_bufread(bytes), 0, 0)) {
+                let res = if mode != M_FAILING_SINK { res } else { match (res, $consume(&|| $module::parse_bufread(bytes), 0, 0)) {
                     (Ok(pre), Ok(full)) => if pre.len() == full.len().min(k % 4 + 1) && pre[..] == full[..pre.len()] { Ok(full) } else { Err(format!("a sink failing on statement {} was given {pre:?}; the document is {full:?}", k % 4)) },
                     (Err(e), _) | (_, Err(e)) => Err(e),
                 } };
@@ -388,6 +585,96 @@ impl io::Write for FailAfter {
         let n = b.len().min(self.budget); self.budget -= n; self.buf.extend_from_slice(&b[..n]); Ok(n)
     }
     fn flush(&mut self) -> io::Result<()> { Ok(()) }
+}
+/// An io::Write probe described by data (the Coq side: coq/C03/Adapters.v, `write_all`): how many
+/// bytes it takes per call (a cycle of caps), which calls are interrupted, a total budget after
+/// which every call fails (by an error, or by Ok(0) if `zero`).  What it received is shared, so that
+/// it can be looked at while the serialiser is still alive (nothing may be held back in the
+/// serialiser once serialize_* has returned).
+#[derive(Clone, Debug)]
+enum Cap { Fixed(usize), Half, AllButOne, All }
+#[derive(Clone)]
+struct Probe { got: std::rc::Rc<std::cell::RefCell<Vec<u8>>>, caps: Vec<Cap>, intr: usize, budget: Option<usize>, zero: bool, calls: usize, max_offered: usize }
+impl Probe {
+    fn new(caps: Vec<Cap>, intr: usize, budget: Option<usize>, zero: bool) -> Probe { Probe { got: Default::default(), caps, intr, budget, zero, calls: 0, max_offered: 0 } }
+    fn describe(&self) -> String { format!("a writer taking per call {:?} (in turn){}{}", self.caps, if self.intr > 0 { format!(", every {}th call interrupted", self.intr) } else { String::new() }, match self.budget { Some(b) => format!(", {} after {b} bytes in all", if self.zero { "answering Ok(0)" } else { "failing" }), None => String::new() }) }
+}
+impl io::Write for Probe {
+    fn write(&mut self, b: &[u8]) -> io::Result<usize> {
+        self.calls += 1; self.max_offered = self.max_offered.max(b.len());
+        if b.is_empty() { return Ok(0); }
+        if self.budget == Some(0) { return if self.zero { Ok(0) } else { Err(io::Error::new(io::ErrorKind::Other, "disk full")) }; }
+        if self.intr > 0 && self.calls % self.intr == 0 { return Err(io::Error::new(io::ErrorKind::Interrupted, "interrupted")); }
+        let cap = match self.caps[self.calls % self.caps.len()] { Cap::Fixed(n) => n, Cap::Half => (b.len() + 1) / 2, Cap::AllButOne => (b.len() - 1).max(1), Cap::All => b.len() };
+        let n = b.len().min(cap).min(self.budget.unwrap_or(usize::MAX));
+        self.got.borrow_mut().extend_from_slice(&b[..n]);
+        if let Some(x) = &mut self.budget { *x -= n; }
+        Ok(n)
+    }
+    fn flush(&mut self) -> io::Result<()> { Ok(()) }
+}
+const CAP_SIZES: &[usize] = &[1, 2, 3, 5, 7, 13, 64, 100, 512, 1000, 4095, 4096, 4097, 8191, 8192, 8193, 16384, 65536];
+const WRAPS: &[&str] = &["by value", "&mut", "Box<dyn Write>", "BufWriter(small)+flush", "BufWriter(default)+flush", "BufWriter(big)+flush", "LineWriter+flush"];
+fn gen_probe(r: &mut Rng, len: usize) -> Probe {
+    let cap = |r: &mut Rng| match r.below(8) { 0 => Cap::Half, 1 => Cap::AllButOne, 2 => Cap::All, _ => Cap::Fixed(*r.pick(CAP_SIZES)) };
+    let caps: Vec<Cap> = (0..[1, 1, 2, 4][r.below(4)]).map(|_| cap(r)).collect();
+    let intr = [0, 0, 2, 3, 7][r.below(5)];
+    let budget = if r.chance(3, 5) { None } else { Some(match r.below(5) {
+        0 => r.below(len + 2),
+        1 => len.saturating_sub(r.below(4)),
+        2 => (r.range(1, 1 + len / 4096) * 4096 + r.below(3)).saturating_sub(1),
+        3 => (r.range(1, 1 + len / 8192) * 8192 + r.below(3)).saturating_sub(1),
+        _ => len + r.below(3),
+    }) };
+    Probe::new(caps, intr, budget, r.chance(1, 3))
+}
+/// One call of serialize_* into the probe behind the wrapper number `wrap`.  ORACLE: the probe has
+/// received exactly the first min(budget, len) bytes of the text (all of it without budget) -- for
+/// the unbuffered wrappers already when serialize_* returns, the serialiser still being alive --
+/// and success is reported iff everything fitted; a failure is a SINK error.
+/// Returns (bytes received, success) for the Coq side.
+fn probe_check(nq: bool, quads: &[Q], full: &[u8], probe: Probe, wrap: usize, by_source: bool, fails: &mut Vec<String>) -> (usize, bool) {
+    use io::Write as _;
+    let got = probe.got.clone();
+    let what = format!("{} handed over as [{}], serialize_{}", probe.describe(), WRAPS[wrap], if by_source { "quads|triples(iterator source)" } else { "dataset|graph(&Vec)" });
+    let dq: Vec<Spog<ST>> = if nq { quads.iter().map(|q| ([to_st(&q.0), to_st(&q.1), to_st(&q.2)], q.3.as_ref().map(to_st))).collect() } else { vec![] };
+    let dt: Vec<[ST; 3]> = if nq { vec![] } else { quads.iter().map(|q| [to_st(&q.0), to_st(&q.1), to_st(&q.2)]).collect() };
+    // Some(true): sink error, Some(false): source error
+    // the length is read while the serialiser `s` is still alive
+    macro_rules! ser2 { ($w:expr) => {{
+        if nq { let mut s = NqSerializer::new($w); let r = if by_source { s.serialize_quads(dq.iter().map(|q| Ok::<_, Infallible>(spog_ref(q)))).map(|_| ()) .map_err(|x| matches!(x, StreamError::SinkError(_))) } else { s.serialize_dataset(&dq).map(|_| ()).map_err(|x| matches!(x, StreamError::SinkError(_))) }; (r, got.borrow().len()) }
+        else { let mut s = NtSerializer::new($w); let r = if by_source { s.serialize_triples(dt.iter().map(|q| Ok::<_, Infallible>(q.each_ref()))).map(|_| ()).map_err(|x| matches!(x, StreamError::SinkError(_))) } else { s.serialize_graph(&dt).map(|_| ()).map_err(|x| matches!(x, StreamError::SinkError(_))) }; (r, got.borrow().len()) }
+    }}; }
+    let budget = probe.budget;
+    let mut p = probe;
+    // (result of serialize_*, bytes received when it returned, result of the flush the user owes to a buffered wrapper)
+    let (res, at_return, flushed): (Result<(), bool>, usize, io::Result<()>) = match wrap {
+        0 => { let (r, n) = ser2!(p); (r, n, Ok(())) }
+        1 => { let (r, n) = ser2!(&mut p); (r, n, Ok(())) }
+        2 => { let b: Box<dyn io::Write> = Box::new(p); let (r, n) = ser2!(b); (r, n, Ok(())) }
+        3 => { let mut w = io::BufWriter::with_capacity(1 + full.len() % 61, p); let (r, n) = ser2!(&mut w); (r, n, w.flush()) }
+        4 => { let mut w = io::BufWriter::new(p); let (r, n) = ser2!(&mut w); (r, n, w.flush()) }
+        5 => { let mut w = io::BufWriter::with_capacity(100_000, p); let (r, n) = ser2!(&mut w); (r, n, w.flush()) }
+        _ => { let mut w = io::LineWriter::new(p); let (r, n) = ser2!(&mut w); (r, n, w.flush()) }
+    };
+    let recv = got.borrow().clone();
+    let want = &full[..budget.unwrap_or(usize::MAX).min(full.len())];
+    let fits = want.len() == full.len();
+    let show_cut = |b: &[u8]| { let s = String::from_utf8_lossy(b); if s.len() > 300 { format!("{} bytes ending in {:?}", b.len(), &s[s.char_indices().rev().nth(120).map(|x| x.0).unwrap_or(0)..]) } else { format!("{s:?}") } };
+    if recv != want {
+        let d = recv.iter().zip(want.iter()).position(|(a, b)| a != b).unwrap_or(recv.len().min(want.len()));
+        fails.push(format!("{what}: the writer received {} bytes, expected the first {} of the {} bytes of the text; first difference at byte {d}: received {} / expected {}", recv.len(), want.len(), full.len(), show_cut(&recv[d..recv.len().min(d + 80)]), show_cut(&want[d..want.len().min(d + 80)])));
+    }
+    if wrap <= 2 && at_return != recv.len() { fails.push(format!("{what}: {at_return} bytes had reached the writer when serialize_* returned, {} in the end", recv.len())); }
+    let ok = res.is_ok() && flushed.is_ok();
+    match (&res, fits) {
+        (Err(false), _) => fails.push(format!("{what}: a failing writer is reported as a SOURCE error")),
+        (Ok(()), false) if wrap <= 2 => fails.push(format!("{what}: the writer took {} of {} bytes and the serialiser reported success", want.len(), full.len())),
+        (Err(true), true) => fails.push(format!("{what}: the serialiser failed although the writer accepted all {} bytes", full.len())),
+        _ => {}
+    }
+    if ok != fits { fails.push(format!("{what}: success (serialize_* and flush) is {ok}, the text {} the budget", if fits { "fits" } else { "does not fit" })); }
+    (recv.len(), ok)
 }
 fn spog_ref(q: &Spog<ST>) -> Spog<&ST> { (q.0.each_ref(), q.1.as_ref()) }
 type Wr = Result<Vec<u8>, String>;
@@ -766,6 +1053,8 @@ fn mutate(r: &mut Rng, doc: &str) -> (String, &'static str) {
     (d, m)
 }
 
+const BULK_EVERY: usize = 81;
+const BULK_SIZES: &[usize] = &[9000, 3000, 17000, 8100, 25000, 8300, 12000, 41000, 7000, 20000, 33000, 66000];
 fn main() {
     let a = parse_args();
     // the `ascii` option panics with todo!(): keep that quiet, everything else as usual
@@ -773,7 +1062,8 @@ fn main() {
     std::panic::set_hook(Box::new(move |info| if !QUIET.with(|q| q.get()) { hook(info) }));
     let mut sum = Summary::default();
     sum.rule = "case = dataset of 0..4 well-formed strict/RDF-star quads (subjects IRI|bnode|quoted triple up to depth 3, objects also literals; lexical forms over all C0 controls, DEL, quotes, backslashes, CR/LF/TAB, non-BMP, combining marks, injection attempts; labels with dots / leading digits / middle dot / non-ASCII; BCP47 tags in random case; default / IRI / blank graph names) serialised as N-Quads or N-Triples through every public way of writing (one way drawn from the seed gives the text, the others must agree) and read back through every public way of reading, or a generalised dataset (variables, relative IRIs, any kind of term at any position) read back by the generalised parser, or a hand-formatted N-Quads text (escapes, white space, comments, one optional mutation); \
-non-trivial = the dataset is non-empty and some term needs escaping, is non-ASCII, is a dotted/digit-leading label, an upper-case tag or a quoted triple (for reader cases: the text contains a backslash escape or is mutated); distinct = distinct serialised / formatted texts".into();
+non-trivial = the dataset is non-empty and some term needs escaping, is non-ASCII, is a dotted/digit-leading label, an upper-case tag or a quoted triple (for reader cases: the text contains a backslash escape or is mutated); distinct = distinct serialised / formatted texts; \
+directed next to the random stream: one case in 81 is a bulk dataset (30..700 statements, 3..70 KiB of text, sometimes one very long lexical form, sometimes repeated up to 1 MB); every dataset text also goes through io::Write probes (short writes, interruptions, budgets, BufWriter / LineWriter / Box / &mut) and every text is also read through the Source adapters (map / filter / filter_map, their iterators, to_triples / to_quads, indexed stores)".into();
     let base = Rng::new(a.seed);
     let mut cases: Vec<(usize, String)> = vec![];
     let mut seen = std::collections::HashSet::new();
@@ -781,10 +1071,31 @@ non-trivial = the dataset is non-empty and some term needs escaping, is non-ASCI
     for idx in range {
         let mut r = base.fork(idx as u64);
         let stream = match r.below(40) { 0 | 1 => "w3c-label", 2 => "lax-tag", 3..=9 => "reader", 10..=12 => "generalized", _ => "dataset" };
+        // directed, next to the random stream: one case in BULK_EVERY is a BULK dataset (texts from a few
+        // KiB to several dozen KiB, so that every buffer size a serialiser, a BufWriter or a parser may
+        // use is crossed), sizes taken in turn from BULK_SIZES
+        // (one in BULK_EVERY among the first 50 * BULK_EVERY cases, one in 5 * BULK_EVERY after them: a
+        // function of the case number alone, so that `--only` replays the same case)
+        let every = if idx < 50 * BULK_EVERY { BULK_EVERY } else { 5 * BULK_EVERY };
+        let bulk = idx % every == every / 2 + 1;
+        let stream = if bulk { "dataset" } else { stream };
+        let bulk_no = idx / every;
         let nq = (stream != "dataset" && stream != "lax-tag" && stream != "generalized") || r.chance(2, 3);
         let nquads = match r.below(10) { 0 => 0, 1..=4 => 1, 5..=7 => 2, _ => r.range(3, 4) };
         let mut g = Gen { r: r.fork(1), sum: &mut sum, lower_tags: stream == "reader", w3c_labels: stream == "w3c-label", lax_tags: stream == "lax-tag", ext_var: false };
         let mut quads: Vec<Q> = (0..nquads).map(|_| if stream == "generalized" { g.gquad(nq) } else { g.quad(nq) }).collect();
+        if bulk {
+            let target = BULK_SIZES[bulk_no % BULK_SIZES.len()];
+            let size = |q: &Q| { fn l(t: &T) -> usize { match t { T::Iri(s) | T::B(s) | T::Var(s) => s.len() + 3, T::Lit(a, b) | T::Lang(a, b) => a.len() + b.len() + 8, T::Tr(b) => l(&b[0]) + l(&b[1]) + l(&b[2]) + 6 } } l(&q.0) + l(&q.1) + l(&q.2) + q.3.as_ref().map(l).unwrap_or(0) + 5 };
+            let mut total: usize = quads.iter().map(size).sum();
+            // one case in four: a single lexical form about half as long as the whole text
+            if bulk_no % 4 == 3 {
+                let mut lex = String::new(); while lex.len() < target / 2 { lex.push_str(&gen_lex(&mut g.r)); lex.push_str(pk(&mut g.r, &["lorem ipsum ", "\u{e9}t\u{e9} ", "x", "\u{1f600}", " "])); }
+                let q = (g.subject(0), T::Iri(gen_iri(&mut g.r, g.sum)), T::Lit(lex, XSD_STRING.into()), None);
+                total += size(&q); quads.push(q);
+            }
+            while total < target { let q = g.quad(nq); total += size(&q); let at = g.r.below(quads.len() + 1); quads.insert(at, q); }
+        }
         // related statements: the same triple in another graph, an exact duplicate, the same subject/predicate
         // with another object ... next to the original or at the end (writers must not merge or drop any of them)
         if stream == "dataset" && !quads.is_empty() && g.r.chance(1, 3) {
@@ -846,7 +1157,13 @@ non-trivial = the dataset is non-empty and some term needs escaping, is non-ASCI
                 }
                 Err(_) => { sum.bump(&format!("reader:rejected:{mname}")); format!("read_rejects {}", coq_bytes(bytes)) }
             };
-            if a.only.is_some() { println!("CASE {idx} (reader, mutation {mname}): text {text:?}\n => {:?}", res); }
+            // the adapters and their iterators, on well-formed and malformed texts alike
+            let obs = obs_quads(&|| nq::parse_bufread(bytes), [2, 0, 3, 1, 5][idx % 5]);
+            let (n_plain, ok_plain) = count_quads(nq::parse_bufread(bytes));
+            for what in obs.oracle(n_plain, ok_plain) { sum.oracle_failures.push((idx.to_string(), format!("reading the text {text:?} through the adapters of the parser source: {what}"))); }
+            let body = format!("{body} && {}", obs.coq(n_plain));
+            sum.bump(if ok_plain { "adapters:trace-ends-with-Ok(false)" } else { "adapters:trace-ends-with-a-source-error" });
+            if a.only.is_some() { println!("CASE {idx} (reader, mutation {mname}): text {text:?}\n => {:?}\n trace {:?}", res, obs.trace); }
             let nontrivial = text.contains('\\') || mutated;
             if seen.insert(text.clone()) && nontrivial { sum.distinct_nontrivial += 1; }
             if sum.samples.len() < 6 && nontrivial && idx % 7 == 0 { sum.samples.push(format!("case {idx} (reader, mutation {mname}): {text:?}")); }
@@ -913,6 +1230,48 @@ non-trivial = the dataset is non-empty and some term needs escaping, is non-ASCI
             _ => { let lfs: Vec<usize> = bytes.iter().enumerate().filter(|(_, b)| **b == b'\n').map(|(i, _)| i).collect(); if lfs.is_empty() { 0 } else { (lfs[r2.below(lfs.len())] + 2).saturating_sub(r2.below(4)) } }
         };
         if let Err(e) = failing_writer_check(nq, &quads, &bytes, budget) { fails.push(e); }
+        // io::Write probes: short writes, interruptions, budgets, behind the usual wrappers
+        let mut r3 = r.fork(11);
+        let mut sink_obs: Vec<(Option<usize>, usize, bool)> = vec![];
+        let mut probe_round = |fmt_nq: bool, qs: &[Q], full: &[u8], count: usize, r3: &mut Rng, fails: &mut Vec<String>, obs: Option<&mut Vec<(Option<usize>, usize, bool)>>, sum: &mut Summary| {
+            let mut obs = obs;
+            for _ in 0..count {
+                let pr = gen_probe(r3, full.len()); let wrap = r3.below(WRAPS.len()); let by_source = r3.chance(1, 2); let bud = pr.budget;
+                sum.bump(&format!("probe:wrapper:{}", WRAPS[wrap])); sum.bump(if bud.is_some() { "probe:with-budget" } else { "probe:without-budget" });
+                if full.len() > 8192 { sum.bump("probe:text-over-8KiB"); } if full.len() > 65536 { sum.bump("probe:text-over-64KiB"); }
+                let mut f = vec![];
+                let r = std::panic::catch_unwind(std::panic::AssertUnwindSafe(|| probe_check(fmt_nq, qs, full, pr.clone(), wrap, by_source, &mut f)));
+                fails.extend(f);
+                match r { Ok((n, ok)) => if let Some(o) = obs.as_deref_mut() { o.push((bud, n, ok)); }, Err(_) => fails.push(format!("PANIC while serialising into {}", pr.describe())) }
+            }
+        };
+        probe_round(nq, &quads, &bytes, if bulk { 10 } else { 3 }, &mut r3, &mut fails, Some(&mut sink_obs), &mut sum);
+        if bulk {
+            sum.bump(&format!("bulk:text-bytes>={}KiB", [0, 4, 8, 16, 32, 64].iter().rev().find(|x| bytes.len() >= **x * 1024).unwrap()));
+            sum.bump(&format!("bulk:statements>={}", [0, 50, 100, 200, 400].iter().rev().find(|x| quads.len() >= **x).unwrap()));
+            // the other format too (oracle only: the text of the stringifier is the reference)
+            let other = if nq { write_nt(0, &quads, &[], k) } else { write_nq(0, &quads, &[], k) }.unwrap();
+            match other { Ok(o) => probe_round(!nq, &quads, &o, 10, &mut r3, &mut fails, None, &mut sum), Err(e) => fails.push(format!("the other format fails on an in-memory target: {e}")) }
+            // one bulk case in three: the same statements over and over, up to several hundred KiB
+            // (oracle only): the text is the repetition of the text, through the probes too, and reads back
+            if bulk_no % 3 == 0 {
+                let reps = ([300_000, 1_100_000, 600_000][(bulk_no / 3) % 3] / bytes.len().max(1)).max(2);
+                let big: Vec<Q> = (0..reps).flat_map(|_| quads.iter().cloned()).collect();
+                let want = bytes.repeat(reps);
+                sum.bump("bulk:repeated-to-several-hundred-KiB");
+                match if nq { write_nq(0, &big, &[], k) } else { write_nt(0, &big, &[], k) }.unwrap() {
+                    Ok(b) if b == want => {
+                        let mut f2 = vec![];
+                        probe_round(nq, &big, &want, 4, &mut r3, &mut f2, None, &mut sum);
+                        fails.extend(f2.into_iter().map(|x| format!("the statements repeated {reps} times: {x}")));
+                        let back = if nq { consume_quads(&|| nq::parse_bufread(&want[..]), 6, 0) } else { consume_triples(&|| nt::parse_bufread(&want[..]), 6, 0) };
+                        match back { Ok(got) => if !same_qs(&got, &big) { fails.push(format!("the statements repeated {reps} times read back (map_* + into_iter) as {} statements that are not the {} written", got.len(), big.len())); }, Err(e) => fails.push(format!("the statements repeated {reps} times: the parser rejects the text: {e}")) }
+                    }
+                    Ok(b) => fails.push(format!("the statements repeated {reps} times serialise to {} bytes that are not {reps} times the text", b.len())),
+                    Err(e) => fails.push(format!("the statements repeated {reps} times: the serialiser fails on an in-memory target: {e}")),
+                }
+            }
+        }
         { let mut errs = vec![]; if std::panic::catch_unwind(std::panic::AssertUnwindSafe(|| check_rio_views(&quads, k % 2 == 0, &mut errs))).is_err() { errs.push("PANIC while looking at the Rio wrappers of the terms".into()); } fails.extend(errs); }
         let base: fn(&[u8]) -> Rd = if gnr { parse_gnq } else if nq { parse_nq } else { parse_nt };
         let enforce = !lax && !ext_var;
@@ -957,20 +1316,37 @@ non-trivial = the dataset is non-empty and some term needs escaping, is non-ASCI
                 }
             }
         }
-        for what in fails { sum.oracle_failures.push((idx.to_string(), format!("{} of the dataset [{}] (written by [{}]): {what}; serialised text {text:?}", if nq { "N-Quads round trip" } else { "N-Triples round trip" }, quads.iter().map(show_q).collect::<Vec<_>>().join(" | "), WRITE_WAYS[way]))); }
+        // the adapters of the parser source and their iterators, as numbers (oracle + Coq model)
+        let m_keep = [2, 0, 3, 1, 5][k % 5];
+        let (obs, (n_plain, ok_plain)) =
+            if gnr { (obs_quads(&|| gnq::parse_bufread(&bytes[..]), m_keep), count_quads(gnq::parse_bufread(&bytes[..]))) }
+            else if nq { (obs_quads(&|| nq::parse_bufread(&bytes[..]), m_keep), count_quads(nq::parse_bufread(&bytes[..]))) }
+            else { (obs_triples(&|| nt::parse_bufread(&bytes[..]), m_keep), count_triples(nt::parse_bufread(&bytes[..]))) };
+        fails.extend(obs.oracle(n_plain, ok_plain));
+        if enforce && (n_plain, ok_plain) != (quads.len(), true) { fails.push(format!("for_each_* delivers {n_plain} statements (without error: {ok_plain}) for {} statements written", quads.len())); }
+        sum.bump(if ok_plain { "adapters:trace-ends-with-Ok(false)" } else { "adapters:trace-ends-with-a-source-error" });
+        sum.bump(&format!("adapters:rounds-without-statement:{}", obs.trace.iter().take_while(|(_, a)| *a == A_MORE).filter(|(n, _)| *n == 0).count().min(3)));
+        let adapters_coq = obs.coq(n_plain);
+        // a bulk dataset is not printed in full: its first statements, its size, and how to get it back
+        let shown = if quads.len() <= 12 && text.len() <= 4000 { format!("[{}]", quads.iter().map(show_q).collect::<Vec<_>>().join(" | ")) } else { format!("[{} | ... {} statements in all, the whole dataset: c03 --seed {} --only {idx}]", quads.iter().take(3).map(show_q).collect::<Vec<_>>().join(" | "), quads.len(), a.seed) };
+        let shown_text = if text.len() <= 4000 { format!("{text:?}") } else { format!("{:?}... ({} bytes)", text.chars().take(600).collect::<String>(), text.len()) };
+        for what in fails { let what = if what.len() > 6000 { format!("{}...", what.chars().take(6000).collect::<String>()) } else { what }; sum.oracle_failures.push((idx.to_string(), format!("{} of the dataset {shown} (written by [{}]): {what}; serialised text {shown_text}", if nq { "N-Quads round trip" } else { "N-Triples round trip" }, WRITE_WAYS[way]))); }
         // (c) Coq case
-        for q in &quads { assert_eq!(coq_term(&to_st(&q.2)), c_term(&q.2)); assert_eq!(coq_term(&to_st(&q.0)), c_term(&q.0)); }
+        for q in quads.iter().filter(|q| match &q.2 { T::Lit(l, _) | T::Lang(l, _) => l.chars().count() <= 2 * CHUNK, _ => true }) { assert_eq!(coq_term(&to_st(&q.2)), c_term(&q.2)); assert_eq!(coq_term(&to_st(&q.0)), c_term(&q.0)); }
         let nontrivial = !quads.is_empty() && quads.iter().any(|q| nasty(&q.0) || nasty(&q.1) || nasty(&q.2) || q.3.as_ref().is_some_and(nasty));
         if seen.insert(text.clone()) && nontrivial { sum.distinct_nontrivial += 1; }
         if sum.samples.len() < 6 && nontrivial && idx % 5 == 0 { sum.samples.push(format!("case {idx} ({stream}): {text:?}")); }
         let calls: Vec<&[Q]> = { let mut v = vec![]; let mut from = 0; for &to in cuts.iter().chain([quads.len()].iter()) { v.push(&quads[from..to]); from = to; } v };
         let c_calls = coq_list(calls.iter().map(|c| c_quads(c)));
+        // the statements and the bytes are written once (`qs`, `bs`; `calls` for the several-calls way)
+        let defs = if way == W_CALLS { format!("let calls : list (list quad) := {c_calls} in let qs : list quad := concat calls in let bs : list N := {} in", cbytes(&bytes)) }
+            else { format!("let qs : list quad := {} in let bs : list N := {} in", c_quads(&quads), cbytes(&bytes)) };
         let mut body =
-            if lax { format!("(if {0} then write_ok {1} {2} else nt_write_ok {1} {2}) && (if wf_quads {1} then read_ok {2} {1} else true)", coq_bool(nq), c_quads(&quads), coq_bytes(&bytes)) }
-            else if gnr { format!("gen_case_ok {} {} {}", coq_bool(nq), c_quads(&quads), coq_bytes(&bytes)) }
-            else if way == W_CALLS { format!("case_calls_ok {} {} {}", coq_bool(nq), c_calls, coq_bytes(&bytes)) }
-            else { format!("case_ok {} {} {}", coq_bool(nq), c_quads(&quads), coq_bytes(&bytes)) };
-        if way == W_CALLS && (lax || gnr) { body = format!("{body} && write_calls_ok {} {} {}", coq_bool(nq), c_calls, coq_bytes(&bytes)); }
+            if lax { format!("(if {0} then write_ok qs bs else nt_write_ok qs bs) && (if wf_quads qs then read_ok bs qs else true)", coq_bool(nq)) }
+            else if gnr { format!("gen_case_ok {} qs bs", coq_bool(nq)) }
+            else if way == W_CALLS { format!("case_calls_ok {} calls bs", coq_bool(nq)) }
+            else { format!("case_ok {} qs bs", coq_bool(nq)) };
+        if way == W_CALLS && (lax || gnr) { body = format!("{body} && write_calls_ok {} calls bs", coq_bool(nq)); }
         if way == W_HAND || way == W_SINGLE {
             // the public write_term on its own, for the terms of the first two statements
             let mut pairs = vec![];
@@ -984,10 +1360,16 @@ non-trivial = the dataset is non-empty and some term needs escaping, is non-ASCI
             }
             body = format!("{body} && terms_ok {}", coq_list(pairs));
         }
+        body = format!("{body} && {adapters_coq}");
+        if !sink_obs.is_empty() {
+            let obs = coq_list(sink_obs.iter().map(|(b, n, ok)| format!("({}, {n}, {})", coq_opt(b.map(|x| x.to_string())), coq_bool(*ok))));
+            body = format!("{body} && sinks_ok {} qs {obs}", coq_bool(nq));
+        }
+        body = format!("({defs} {body})");
         cases.push((idx, body));
     }
     if a.only.is_none() {
-        let header = "From Sophia.Common Require Import Prelude Term.\nFrom Sophia.C03 Require Import Model.\n";
+        let header = "From Sophia.Common Require Import Prelude Term.\nFrom Sophia.C03 Require Import Model Adapters.\n";
         sum.shards = write_shards(&a.out, header, &cases, a.shards);
         sum.extra.push(("coq_cases".into(), cases.len().to_string()));
         std::fs::write(format!("{}/summary.json", a.out), sum.to_json()).unwrap();
